@@ -20,12 +20,12 @@ def main():
     titles = {p["id"]: p["title"] for p in props}
     items = []
     for d in sorted(os.listdir(SRC)):
-        m = re.fullmatch(r"(C\d\d)([ab])", d)
+        m = re.fullmatch(r"(C\d\d)([abc])", d)
         if not m:
             continue
         for x in "AB":
-            # second-round changes (directories CNNb) are filed as C and D
-            sid = f"{m.group(1)}-{x if m.group(2) == 'a' else {'A': 'C', 'B': 'D'}[x]}"
+            # second-round changes (directories CNNb) are filed as C and D, third-round ones (CNNc) as E and F
+            sid = f"{m.group(1)}-{ {'a': {'A': 'A', 'B': 'B'}, 'b': {'A': 'C', 'B': 'D'}, 'c': {'A': 'E', 'B': 'F'}}[m.group(2)][x] }"
             if todo and sid not in todo:
                 continue
             patch = f"{SRC}/{d}/patch{x}.ported.diff"
